@@ -179,11 +179,37 @@ Fixpoint rule_key (r : crule) : string :=
   end.
 Definition sort_rules (l : list crule) : list crule := map snd (sort_keyed (map (fun x => (rule_key x, x)) l)).
 
+(* ------------------------------------------------------------------ the reading of a rule body: which variable each statement
+   binds and which it needs, with the local scope of comprehensions.  [Bind "" needs] is a test. *)
+Inductive stmt :=
+| Bind (v : string) (needs : list string)
+| Compr (v : string) (body : list stmt) (out : list string).   (* v = [ .. out .. | body ]: the body's variables are local *)
+Definition bound (s : stmt) : string := match s with Bind v _ | Compr v _ _ => v end.
+Definition all_in (us env : list string) : bool := forallb (fun u => in_strs u env) us.
+(* safe in the engine's sense: every variable a statement needs is bound by an earlier statement of an enclosing body *)
+Fixpoint safe_in (s : stmt) (env : list string) {struct s} : bool :=
+  match s with
+  | Bind _ needs => all_in needs env
+  | Compr _ body out =>
+      (fix go (l : list stmt) (env : list string) {struct l} : bool :=
+         match l with
+         | [] => all_in out env
+         | s' :: r => safe_in s' env && go r (bound s' :: env)
+         end) body env
+  end.
+Fixpoint safe_list (env : list string) (l : list stmt) : bool :=
+  match l with
+  | [] => true
+  | s :: r => safe_in s env && safe_list (bound s :: env) r
+  end.
+Definition flat_du (l : list (string * list string)) : list stmt := map (fun d => Bind (fst d) (snd d)) l.
+
 (* ------------------------------------------------------------------ results *)
 (* a SimpleRegoResult: the snippet (lines, constraint id, trace path, trace value), the trace node, the text of its path rules *)
 (* [cs_origin] is not text: it remembers which rule the result was generated from (the abstract result of Dnf.disp), so that
    Proofs/CompileProofs.v can state what the branches of the text mean *)
-Record csimple := { cs_snip : snippet; cs_node : string; cs_rules : list string; cs_origin : simple catom cnest }.
+Record csimple := { cs_snip : snippet; cs_node : string; cs_rules : list string; cs_origin : simple catom cnest;
+                    cs_du : list stmt (* the reading of sn_lines *); cs_uses : list string (* what the trace value reads *) }.
 Inductive tres := TSimple (s : csimple) | TBranch (b : list csimple).
 Definition t_branch (t : tres) : list csimple := match t with TSimple s => [s] | TBranch b => b end.
 
@@ -200,6 +226,9 @@ Fixpoint json_chars (s : string) : string :=
   end.
 Definition json_string (s : string) : string := """" ++ json_chars s ++ """".
 
+Definition of_snippet (sn : snippet) (node : string) (rules : list string) (o : simple catom cnest) : csimple :=
+  {| cs_snip := sn; cs_node := node; cs_rules := rules; cs_origin := o; cs_du := flat_du (sn_du sn); cs_uses := sn_value_uses sn |}.
+
 (* one constraint: the SimpleRegoResult and the counter afterwards *)
 Definition gen_atom (neg : bool) (a : catom) (c : nat) : csimple * nat :=
   let x := ca_var a in
@@ -210,27 +239,26 @@ Definition gen_atom (neg : bool) (a : catom) (c : nat) : csimple * nat :=
   | KCount name cond per_value k =>
       let n1 := S c in
       let (rule, c2) := fresh "path_set_rule" n1 in
-      ({| cs_snip := count_snippet x src rule n1 per_value neg cond k name tp; cs_node := x; cs_rules := [set_rule rule]; cs_origin := SAtom neg a |}, c2)
+      (of_snippet (count_snippet x src rule n1 per_value neg cond k name tp) x [set_rule rule] (SAtom neg a), c2)
   | KPattern pat =>
       let (rule, c1) := fresh "path_set_rule" c in
-      ({| cs_snip := pattern_snippet x src rule (S c1) neg (pattern_literal pat) (json_string pat) tp; cs_node := x; cs_rules := [set_rule rule]; cs_origin := SAtom neg a |}, S c1)
+      (of_snippet (pattern_snippet x src rule (S c1) neg (pattern_literal pat) (json_string pat) tp) x [set_rule rule] (SAtom neg a), S c1)
   | KDatatype _ dt =>
       let (rule, c1) := fresh "path_set_rule" c in
-      ({| cs_snip := datatype_snippet x src rule (S c1) neg dt tp; cs_node := x; cs_rules := [set_rule rule]; cs_origin := SAtom neg a |}, S c1)
+      (of_snippet (datatype_snippet x src rule (S c1) neg dt tp) x [set_rule rule] (SAtom neg a), S c1)
   | KNum _ cid op ktext =>
       let (rule, c1) := fresh "path_set_rule" c in
-      ({| cs_snip := numeric_snippet x src rule (S c1) neg cid op ktext tp; cs_node := x; cs_rules := [set_rule rule]; cs_origin := SAtom neg a |}, S c1)
+      (of_snippet (numeric_snippet x src rule (S c1) neg cid op ktext tp) x [set_rule rule] (SAtom neg a), S c1)
   | KIn vals =>
       let (rule, c3) := fresh "path_set_rule" (S (S c)) in
-      ({| cs_snip := in_snippet x src rule (S c) (S (S c)) neg vals tp; cs_node := x; cs_rules := [set_rule rule]; cs_origin := SAtom neg a |}, c3)
+      (of_snippet (in_snippet x src rule (S c) (S (S c)) neg vals tp) x [set_rule rule] (SAtom neg a), c3)
   | KContains all vals =>
       let (rule, c3) := fresh "path_set_rule" (S (S c)) in
-      ({| cs_snip := contains_snippet all x src rule (S c) (S (S c)) neg vals tp; cs_node := x; cs_rules := [set_rule rule]; cs_origin := SAtom neg a |}, c3)
+      (of_snippet (contains_snippet all x src rule (S c) (S (S c)) neg vals tp) x [set_rule rule] (SAtom neg a), c3)
   | KCmp name op src2 p2 =>
       let (ruleA, c1) := fresh "path_set_rule" c in
       let (ruleB, c2) := fresh "path_set_rule" c1 in
-      ({| cs_snip := cmp_snippet x src ruleA src2 ruleB neg name op tp; cs_node := x;
-          cs_rules := [set_rule ruleA; path_rule (Some p2) false false x ruleB]; cs_origin := SAtom neg a |}, c2)
+      (of_snippet (cmp_snippet x src ruleA src2 ruleB neg name op tp) x [set_rule ruleA; path_rule (Some p2) false false x ruleB] (SAtom neg a), c2)
   | KUnique arg =>
       let (rule, c1) := fresh "path_array_rule" c in
       let (arr, c2) := fresh "array_values" c1 in
@@ -242,7 +270,12 @@ Definition gen_atom (neg : bool) (a : catom) (c : nat) : csimple * nat :=
                                      (if xorb arg neg then "" else "not ") ++ "count(" ++ dup ++ ") > 0"];
                         sn_du := [(arr, [x]); (dup, [arr]); ("", [dup])];
                         sn_id := "uniqueValues"; sn_path := tp; sn_value := """negated"":" ++ bool_text neg; sn_value_uses := [] |};
-          cs_node := x; cs_rules := [path_rule (ca_path a) false true x rule]; cs_origin := SAtom neg a |}, c3)
+          cs_node := x; cs_rules := [path_rule (ca_path a) false true x rule]; cs_origin := SAtom neg a;
+          cs_du := [Bind arr [x];
+                    Compr dup [Bind "array_value" [arr]; Compr "indices_for_value" [Bind "idx" ["array_value"; arr]] ["idx"];
+                               Bind "" ["indices_for_value"]; Bind "duplicate" ["array_value"]] ["duplicate"];
+                    Bind "" [dup]];
+          cs_uses := [] |}, c3)
   | KRego code _ =>
       let (rule, c1) := fresh "path_set_rule" c in
       let with_path := match ca_path a with Some _ => true | None => false end in
@@ -256,7 +289,7 @@ Definition gen_atom (neg : bool) (a : catom) (c : nat) : csimple * nat :=
                                                      chk ++ " = " ++ chk ++ "_array"] else [])
                                     ++ split_nl text ++ [res ++ (if neg then " == true" else " != true")];
                         sn_du := []; sn_id := "rego"; sn_path := tp; sn_value := """negated"":" ++ bool_text neg; sn_value_uses := [] |};
-          cs_node := focus; cs_rules := [set_rule rule]; cs_origin := SAtom neg a |}, c4)
+          cs_node := focus; cs_rules := [set_rule rule]; cs_origin := SAtom neg a; cs_du := []; cs_uses := [] |}, c4)
   end.
 
 (* ---- wrapBranch *)
@@ -276,6 +309,35 @@ Definition wrap_branch (name : string) (iris : list string) (expr : string) (bra
   body_lines 0 branch
   ++ (if existsb sets_message branch then [] else message_lines mapping iris expr)
   ++ ["  " ++ matches ++ " := error(" ++ q (escape name) ++ "," ++ mapping ++ ", message ,[" ++ join "," (map result_var (seq 0 (List.length branch))) ++ "])"].
+
+(* the reading of the lines of wrap_branch (for branches without hand-written Rego): the constraints, each followed by its trace
+   binding; the message; the error binding *)
+Fixpoint body_du (i : nat) (branch : list csimple) : list stmt :=
+  match branch with
+  | [] => []
+  | s :: r => (cs_du s ++ [Bind (result_var i) (cs_node s :: cs_uses s)] ++ body_du (S i) r)%list
+  end.
+Definition wrap_du (m : nat) (branch : list csimple) (matches mapping : string) : list stmt :=
+  (body_du 0 branch ++ flat_du (message_du mapping m)
+   ++ [Bind matches ("message" :: mapping :: map result_var (seq 0 (List.length branch)))])%list.
+
+(* the reading of the lines generateNested writes around the branches of the body *)
+Definition nested_branch_du (pl child acc : string) (i : nat) (b : list csimple) : list stmt :=
+  let brv := branch_var pl i in
+  let bre := brv ++ "_errors" in
+  [Compr brv (Bind child [pl] :: List.app (wrap_du 0 b (brv ++ "_inner_error") child) [Bind (brv ++ "_error") [child; brv ++ "_inner_error"]])
+         [brv ++ "_error"];
+   Compr bre [Bind "n" [brv]; Bind "nodeId" ["n"]] ["nodeId"];
+   Compr (bre ++ "_errors") [Bind "n" [brv]; Bind "node" ["n"]] ["node"];
+   Bind (acc ++ dec (S i)) [acc ++ dec i; bre ++ "_errors"]].
+Definition nested_du (parent child : string) (branches : list (list csimple)) : list stmt :=
+  let pl := plural child in
+  let acc := child ++ "_errorAcc" in
+  let agg := pl ++ "_error_node_variables_agg" in
+  let k := List.length branches in
+  List.app [Bind pl [parent]; Bind (acc ++ "0") []]
+    (List.app (flat_map (fun ib : nat * list csimple => nested_branch_du pl child acc (fst ib) (snd ib)) (combine (seq 0 k) branches))
+       [Bind acc [acc ++ dec k]; Bind agg (map (fun i => branch_var pl i ++ "_errors") (seq 0 k)); Bind "" [agg; pl]]).
 
 (* ---- generateNested around the results of the body *)
 Definition nested_simple (neg : bool) (qn : quant) (p : cnest) (rule : string) (results : list tres) : csimple :=
@@ -315,7 +377,9 @@ Definition nested_simple (neg : bool) (qn : quant) (p : cnest) (rule : string) (
                    sn_du := []; sn_id := cid; sn_path := tp; sn_value := value; sn_value_uses := [] |};
      cs_node := parent;
      cs_rules := path_rule (Some (cn_path p)) true false parent rule :: flat_map (fun b => flat_map cs_rules (t_branch b)) results;
-     cs_origin := SNested neg qn p (map (fun b => map cs_origin (t_branch b)) results) |}.
+     cs_origin := SNested neg qn p (map (fun b => map cs_origin (t_branch b)) results);
+     cs_du := nested_du parent child (List.map t_branch results);
+     cs_uses := [agg; pl; acc] |}.
 
 (* ------------------------------------------------------------------ Dispatch *)
 Fixpoint gen_all (g : crule -> nat -> option (list tres * nat)) (l : list crule) (c : nat) : option (list (list tres) * nat) :=
@@ -414,3 +478,17 @@ Definition module_text (fuel : nat) (preamble : string) (p : cprofile) (c : nat)
       Some (join nl (filter (fun s => negb (String.eqb s "")) (head ++ ts)), c1)
   | None => None
   end.
+
+(* ------------------------------------------------------------------ "declarative and well scoped" as a test: every constraint speaks
+   about the variable in scope and none is hand-written Rego (Proofs/ScopeProofs.v: the rule bodies of such a rule are safe) *)
+Definition no_rego_b (a : catom) : bool := match ca_kind a with KRego _ _ => false | _ => true end.
+Fixpoint scoped_b (v : string) (r : crule) {struct r} : bool :=
+  match r with
+  | RAtom _ a => String.eqb (ca_var a) v && no_rego_b a
+  | RAnd _ l => (fix go (l : list crule) : bool := match l with [] => true | x :: xs => scoped_b v x && go xs end) l
+  | ROr _ l => (fix go (l : list crule) : bool := match l with [] => true | x :: xs => scoped_b v x && go xs end) l
+  | RCond _ i t e => scoped_b v i && scoped_b v t && match e with Some e' => scoped_b v e' | None => true end
+  | RNested _ _ p body => String.eqb (cn_parent p) v && scoped_b (cn_child p) body
+  end.
+(* every validation of the profile is declarative and well scoped *)
+Definition profile_scoped (p : cprofile) : bool := forallb (fun v => scoped_b (cv_var v) (cv_rule v)) (cp_vals p).
